@@ -35,6 +35,8 @@ def encode(cfg, snap):
     out += [encode_task(t) for t in snap['queue']]
     out.append(-2)
     out += [t[1] if t[0] == 'recon' else 9999 for t in snap['timers']]
+    out.append(-6)
+    out += list(snap['probes'])
     out.append(-3)
     out += [10 * h + c for (h, c) in snap['recons']]
     out.append(-4)
@@ -54,6 +56,10 @@ def coq_ev(ev):
     k = ev[0]
     if k in ('fail', 'sdown', 'sup', 'add', 'rem'):
         return '%s %d' % ({'fail': 'EFail', 'sdown': 'EStatusDown', 'sup': 'EStatusUp', 'add': 'EAdd', 'rem': 'ERemove'}[k], ev[1])
+    if k == 'pstart':
+        return 'EProbeStart %d' % ev[1]
+    if k == 'pfinish':
+        return 'EProbeFinish %d %s' % (ev[1], OUT[ev[2]])
     return '%s %d %s' % ('EReconnect' if k == 'recon' else 'ERun', ev[1], OUT[ev[2]])
 
 
@@ -80,8 +86,11 @@ class Oracle(object):
         H = self.H
         if ev[0] == 'recon' and H.applicable(ev):
             self.fired = H.timer_desc(H.scheduler.timers[ev[1]])[1]
+        elif ev[0] == 'pfinish' and H.applicable(ev):
+            self.fired = H.recons.index(H.probes[ev[1]]['handler'])
         else:
             self.fired = None
+        self.fired_host_removed = (self.fired is not None and H.removed[H.hid(H.recons[self.fired].host)])
         if ev[0] == 'run' and H.applicable(ev) and H.task_desc(H.executor.queue[ev[1]])[0] == 'addpool' and ev[2] == 'auth':
             self.pool_auth = True
 
@@ -90,7 +99,14 @@ class Oracle(object):
         cfg, H = self.cfg, self.H
         out = []
         ign = [x == 'ign' for x in cfg['hosts']]
-        timers = [t[1] for t in snap['timers'] if t[0] == 'recon']
+        timers = [t[1] for t in snap['timers'] if t[0] == 'recon'] + list(snap['probes'])     # scheduled or attempt in flight
+        if self.fired is not None and self.fired_host_removed:
+            hid = snap['recons'][self.fired][0]
+            acted = [n for n in snap['log'] if n[0] in ('L', 'P') and n[2] == hid and n[1] in ('up', 'add')]
+            hs, ph = snap['hosts'][hid], self.prev['hosts'][hid]
+            if acted or (hs['is_up'] == 1 and ph.get('is_up') != 1) or (hs['handling'] and not ph.get('handling')):
+                out.append(('removed-host-reconnected', 'a reconnector of removed host %d completed and marked it up / notified %r' % (hid, acted),
+                            'C25_removed_never_reconnected'))
         if self.fired is not None and ev[2] in ('fail', 'auth'):
             rid = self.fired
             if rid not in timers and not snap['recons'][rid][1]:
@@ -127,7 +143,7 @@ class Oracle(object):
                     out.append(('marked-up.listeners-notified-%d-times' % n, 'host %d marked up by %r with %d listener notifications' % (h, ev, n),
                                 'C25_up_once_per_transition'))
         for (hid, kind, o, removed) in H.attempts[self.natt:]:
-            if removed and ev[0] == 'recon':
+            if removed and ev[0] in ('recon', 'pstart'):
                 out.append(('removed-host-reconnect-attempt', 'reconnector connected to removed host %d' % hid, 'C25_removed_never_reconnected'))
         self.natt = len(H.attempts)
         self.track_overlap(ev, snap)
@@ -215,3 +231,41 @@ def gen_and_run(rng, cfg, n, illegal=0.05):
         return evs, encs, finds, snaps
     finally:
         H.close()
+
+
+def enum_scope(cfg, prefix, depth, kinds=('run', 'recon', 'pstart', 'pfinish')):
+    """Every history prefix ++ w where w ranges over ALL sequences of <= depth enabled executor/scheduler events
+    (any queue index = any executor order, every outcome).  Returns the maximal histories (each run step by step)."""
+    out = []
+    frontier = [list(prefix)]
+    for d in range(depth):
+        nxt = []
+        for evs in frontier:
+            H = Harness(cfg)
+            try:
+                for e in evs:
+                    H.step(e)
+                en = [e for e in H.enabled() if e[0] in kinds]
+            finally:
+                H.close()
+            if not en:
+                out.append(evs)
+            for e in en:
+                nxt.append(evs + [e])
+        frontier = nxt
+    return out + frontier
+
+
+def directed_split():
+    """a reconnection attempt in flight while another event is delivered, then the attempt succeeds / fails"""
+    hs = []
+    for ns in (1, 2):
+        cfg = {'nhosts': 1, 'hosts': ['up'], 'nsess': ns, 'sched': None}
+        for x in (('rem', 0), ('sup', 0), ('sdown', 0), ('fail', 0)):
+            for o in ('ok', 'fail'):
+                hs.append((cfg, [('fail', 0), ('run', 0, 'ok'), ('pstart', 0), x, ('pfinish', 0, o)] + [('run', 0, 'ok')] * (2 * ns)))
+        cfg2 = {'nhosts': 1, 'hosts': ['absent'], 'nsess': ns, 'sched': None}     # is_host_addition reconnector
+        pre = [('add', 0), ('run', 0, 'fail'), ('run', ns - 1, 'ok')]
+        for x in (('rem', 0), ('sup', 0)):
+            hs.append((cfg2, pre + [('pstart', 0), x, ('pfinish', 0, 'ok')] + [('run', 0, 'ok')] * (2 * ns)))
+    return hs
